@@ -111,6 +111,8 @@ def main(argv):
     raw = ["oid_print " + gen.hx(gen.rbytes(rng, rng.randint(0, 9))) for _ in range(20000 if thorough else 4000)]
     dis += cd.diff(raw, label="oid_print", on_case=lambda k, ln, ml, rl, dl: (
         c.count(ln), [c.violation("printing OID octets panics: " + ln, {"cmd": ln}, key="oid-print-panic") for o in (rl, dl) if o == "PANIC"]))
+    idx = rng.sample(range(len(lines)), 200)
+    codec.crosscheck_extraction(c, cd, [lines[i] for i in idx], [m[i] for i in idx])
     c.sample({"text": texts[5], "sent": r[5]})
     c.sample({"text": texts[30], "sent": r[30]})
 
